@@ -183,7 +183,8 @@ peer_main (void *arg)
       int got = 0, i, order[MAXT];
       unsigned char buf[24 * MAXT];
       size_t len = 0;
-      long deadline = now_ms () + 3000;
+      /* (the clients may still be sitting out the deadlines of the previous step's unanswered calls) */
+      long deadline = now_ms () + 30000;
       unsigned seed = peer_seed[step];
       struct timespec d;
       while (got < nthreads && now_ms () < deadline)
